@@ -303,6 +303,11 @@ def api_recipe(rng, fixture=None):
                     continue  # the row / column whose size was set is not the one removed
                 if which.startswith("delete") and any(o["op"] in ("header_rows", "header_cols") and o["tbl"] == tbl for o in ops[first_op:]):
                     continue
+                if which == "delete_row" and R_ >= 3 and rng.random() < .6 and not borders:
+                    # the row that becomes the last one carries a height of its own (set and not yet saved)
+                    ops.append({"op": "row_height", "tbl": tbl, "r": R_ - 2, "h": rng.choice([50, 77, 240, rng.randint(30, 400)])})
+                elif which == "delete_column" and C_ >= 3 and rng.random() < .6 and not borders:
+                    ops.append({"op": "col_width", "tbl": tbl, "c": C_ - 2, "w": rng.choice([50, 77, 240, rng.randint(30, 400)])})
                 ops.append({"op": which, "tbl": tbl})
                 if which == "add_column":
                     C_ += 1
@@ -312,6 +317,28 @@ def api_recipe(rng, fixture=None):
                     C_ -= 1
                 else:
                     R_ -= 1
+                setflags.add("structural_edits_after_sizes")
+        if not lite and not borders and rng.random() < .3:
+            # a size set on the row (column) next to the last, then the last one removed - and sometimes one added back: the
+            # row that has become the last keeps the size it was given
+            hdr = {o["op"]: o["n"] for o in ops[first_op:] if o["op"] in ("header_rows", "header_cols") and o["tbl"] == tbl}
+            sized_last_row = any(o["op"] == "row_height" and o["tbl"] == tbl and o["r"] == R_ - 1 for o in ops[first_op:])
+            sized_last_col = any(o["op"] == "col_width" and o["tbl"] == tbl and o["c"] == C_ - 1 for o in ops[first_op:])
+            if rng.random() < .5 and R_ >= 3 and hdr.get("header_rows", 0) <= R_ - 2 and not sized_last_row:
+                ops.append({"op": "row_height", "tbl": tbl, "r": R_ - 2, "h": rng.choice([50, 77, 240, rng.randint(30, 400)])})
+                ops.append({"op": "delete_row", "tbl": tbl})
+                R_ -= 1
+                if rng.random() < .5:
+                    ops.append({"op": "add_row", "tbl": tbl})
+                    R_ += 1
+                setflags.add("structural_edits_after_sizes")
+            elif C_ >= 3 and hdr.get("header_cols", 0) <= C_ - 2 and not sized_last_col:
+                ops.append({"op": "col_width", "tbl": tbl, "c": C_ - 2, "w": rng.choice([50, 77, 240, rng.randint(30, 400)])})
+                ops.append({"op": "delete_column", "tbl": tbl})
+                C_ -= 1
+                if rng.random() < .5:
+                    ops.append({"op": "add_column", "tbl": tbl})
+                    C_ += 1
                 setflags.add("structural_edits_after_sizes")
         if borders:
             for _ in range(rng.randint(1, 4)):
